@@ -1253,6 +1253,7 @@ RETCODE adfFileCreateNextBlock ( struct AdfFile * const file )
         struct bOFSDataBlock * const data = file->currentData;
         if (file->pos>=blockSize) {
             data->nextData = nSect;
+            data->dataSize = blockSize;     /* a block that gets a successor is full */
             adfWriteDataBlock(file->volume, file->curDataPtr, file->currentData);
 /*printf ("writedata=%d\n",file->curDataPtr);*/
         }
